@@ -58,7 +58,7 @@ def cases(tier, rng):
 #      and an unrelated term ----
 BIG_CONSTS = [atom("a"), atom("b"), atom("a_rather_long_atom_of_more_than_thirty_two_characters"), atom("Zo\u00eb \u65e5\u672c"), integer(0), integer(7),
               integer(2**31), integer(2**53 + 1), integer(-2**63), integer(2**63 - 1), flt(0.1), flt(-0.0), flt(1e300), flt(123456.789012345),
-              flt(float(2**53)), EMPTY]
+              flt(float(2**53)), EMPTY, flt(0.3), flt(0.1 + 0.2), flt(0.1), flt(0.10000000000000002), flt(1e-17), flt(2e-17), flt(0.0)]
 def _bvar(i): return var(i, "$V%d" % i)
 def big_term(rng, ids, depth):
     k = rng.random()
@@ -92,6 +92,8 @@ def big_cases(tier, rng):
     for k in range(n):
         base = rng.choice([0, 0, 20, 40])
         ids = [base + i for i in range(1, 7)]
+        if rng.random() < 0.3:    # ids congruent modulo 64 / 256 / 65536 (a table, mask or cast keyed by too little of the id)
+            ids = rng.choice([[3, 5, 67, 69, 131, 133], [2, 258, 514, 66, 130, 6], [7, 65543, 71, 9, 65545, 135]])
         t = big_term(rng, ids, rng.choice([3, 4, 5]))
         pt = parse(t)
         paths = _paths(pt, [], [])
@@ -112,11 +114,30 @@ def big_cases(tier, rng):
         for i in ids:
             if _bvar(i) in inst: inst = inst.replace(_bvar(i), big_term(rng, [], 2))
         partners.append(inst)
-        prior = rng.choice([[], [], [(_bvar(ids[0]), _bvar(ids[1]))], [(_bvar(ids[2]), atom("a"))], [(_bvar(ids[1]), lst([_bvar(ids[3]), atom("b")], _bvar(ids[4])))]])
+        prior = rng.choice([[], [], [(_bvar(ids[0]), _bvar(ids[1]))], [(_bvar(ids[2]), atom("a"))], [(_bvar(ids[1]), lst([_bvar(ids[3]), atom("b")], _bvar(ids[4])))],
+                            [(_bvar(ids[1]), _bvar(ids[2])), (_bvar(ids[2]), _bvar(ids[0]))], [(_bvar(ids[3]), _bvar(ids[2])), (_bvar(ids[2]), _bvar(ids[4])), (_bvar(ids[4]), _bvar(ids[0]))]])
         for b in partners:
             if needs_occurs_check(prior, t, b): continue
             out.append((mk_prior(prior), "prior"))
             out.append((mk(prior, t, b), "big")); out.append((mk(prior, b, t), "big-swapped"))
+    # chains of aliased variables closed by one more step, over ids that collide modulo a power of two
+    for ids in ([3, 5, 67, 69, 131, 133], [2, 258, 514, 66, 130, 6], [7, 65543, 71, 9, 65545, 135], [1, 2, 3, 4, 5, 6]):
+        vs = [_bvar(i) for i in ids]
+        for _ in range(12 if tier == "quick" else 200):
+            order = rng.sample(vs, rng.randint(3, 6))
+            chain = [(order[k + 1], order[k]) if rng.random() < 0.7 else (order[k], order[k + 1]) for k in range(len(order) - 1)]
+            last = (order[0], order[-1]) if rng.random() < 0.5 else (order[-1], order[0])
+            out.append((mk_prior(chain), "prior"))
+            out.append((mk(chain, last[0], last[1]), "big")); out.append((mk(chain, last[1], last[0]), "big-swapped"))
+            out.append((mk(chain, last[0], atom("a")), "big"))
+    # floats that differ in the last place(s)
+    close = [(0.3, 0.1 + 0.2), (0.1, 0.10000000000000002), (1e-17, 2e-17), (0.0, 1e-17), (1.0, 1.0000000000000002), (1e300, 1.0000000000000002e300), (0.0, -0.0), (0.3, 0.3)]
+    for x, y in close:
+        for wrap in (lambda t: t, lambda t: cplx("f", t), lambda t: lst([atom("a"), t]), lambda t: lst([t], _bvar(1))):
+            out.append((mk_prior([]), "prior"))
+            out.append((mk([], wrap(flt(x)), wrap(flt(y))), "big")); out.append((mk([], wrap(flt(y)), wrap(flt(x))), "big-swapped"))
+        out.append((mk_prior([(_bvar(2), flt(x))]), "prior"))
+        out.append((mk([(_bvar(2), flt(x))], _bvar(2), flt(y)), "big")); out.append((mk([(_bvar(2), flt(x))], flt(y), _bvar(2)), "big-swapped"))
     return out
 
 RULE = ("ordered pairs of the 119-term universe (atoms, integers, floats, three variables, $_, f/1, g/2, lists of length 0-3 with "
